@@ -31,6 +31,9 @@ type CrashSpec struct {
 		Commit int    `json:"commit,omitempty"` // kill immediately before the k-th durable commit of the history
 		Point  string `json:"point,omitempty"`  // or at the n-th hit of a named point
 		N      int    `json:"n,omitempty"`
+		// or: the k-th asynchronous commit (Txn.CommitWith) of the history has not reached the write-ahead log when
+		// the process dies right after the operation that issued it was acknowledged
+		Async int `json:"async,omitempty"`
 	} `json:"kill"`
 	Kind  string          `json:"kind"` // store | dsm | ns | job ...
 	Extra json.RawMessage `json:"extra,omitempty"`
@@ -40,6 +43,7 @@ type CrashCount struct {
 	Commits int            `json:"commits"`
 	Points  map[string]int `json:"points"`
 	Acks    int            `json:"acks"`
+	Async   int            `json:"async"`
 }
 
 func vDie() {
@@ -85,7 +89,7 @@ func (h *VHist) applyWriteImpl(op VOp) (int64, error) {
 		if ds == nil {
 			return 0, fmt.Errorf("no dataset %s", op.DS)
 		}
-		es, _ := h.ents(op.Ents)
+		es, _ := h.ents(op.allEnts())
 		if err := ds.StoreEntities(es); err != nil {
 			return 0, err
 		}
@@ -110,7 +114,7 @@ func (h *VHist) applyWriteImpl(op VOp) (int64, error) {
 func (h *VHist) ModelApply(op VOp) {
 	switch op.K {
 	case "batch":
-		_, ms := h.ents(op.Ents)
+		_, ms := h.ents(op.allEnts())
 		_, _ = h.M.Batch(op.DS, ms)
 	case "txn":
 		mp := map[string][]model.Ent{}
@@ -190,6 +194,17 @@ func vCrashChild(dir string, spec CrashSpec) {
 			vDie()
 		}
 	}
+	held := false
+	badger.VerifAsyncHold = func() bool {
+		cnt.Async++
+		if spec.Kill.Async == cnt.Async {
+			held = true
+			// if the code waits for the commit callback the operation is never acknowledged: die anyway
+			time.AfterFunc(3*time.Second, vDie)
+			return true
+		}
+		return false
+	}
 	acks, err := os.OpenFile(filepath.Join(dir, "acks"), os.O_CREATE|os.O_WRONLY|os.O_APPEND, 0o644)
 	if err != nil {
 		os.Exit(3)
@@ -202,11 +217,15 @@ func vCrashChild(dir string, spec CrashSpec) {
 		}
 		fmt.Fprintf(acks, "ack %d %s\n", i, extra)
 		cnt.Acks++
+		if held {
+			vDie() // acknowledged, but the asynchronous commit never reached the log
+		}
 	}
 	if spec.Kill.Commit == cnt.Commits+1 {
 		vDie() // the boundary after the last commit of the history
 	}
 	badger.VerifHook = nil
+	badger.VerifAsyncHold = nil
 	verifhook.Handler = nil
 	b, _ := json.Marshal(cnt)
 	_ = os.WriteFile(filepath.Join(dir, "count.json"), b, 0o644)
@@ -285,7 +304,7 @@ func VRunCrashTaskDir(spec CrashSpec, recoverFn func(dir string, res *CrashResul
 			_ = json.Unmarshal(b, &c)
 			res.Count = &c
 		}
-		if spec.Kill.Commit != 0 || spec.Kill.Point != "" {
+		if spec.Kill.Commit != 0 || spec.Kill.Point != "" || spec.Kill.Async != 0 {
 			// the kill point was not reached in this run (history shorter than expected)
 			res.Matched = -2
 			return
@@ -366,6 +385,9 @@ func vInspectStore(w *VWorld, h *VHist, spec CrashSpec, acked int, res *CrashRes
 		}
 	}
 	killDesc := fmt.Sprintf("commit=%d point=%s#%d", spec.Kill.Commit, spec.Kill.Point, spec.Kill.N)
+	if spec.Kill.Async > 0 {
+		killDesc = fmt.Sprintf("after the acknowledgement, asynchronous commit #%d not yet in the log", spec.Kill.Async)
+	}
 	histDesc := vOpsString(spec.Hist)
 	if res.Matched < 0 {
 		whats := []string{}
@@ -455,7 +477,11 @@ func vOpsString(ops []VOp) string {
 	for _, o := range ops {
 		switch o.K {
 		case "batch":
-			l = append(l, fmt.Sprintf("batch(%s:%s)", o.DS, ents(o.Ents)))
+			if o.N > 0 {
+				l = append(l, fmt.Sprintf("batch(%s:%s + %d generated entities)", o.DS, ents(o.Ents), o.N))
+			} else {
+				l = append(l, fmt.Sprintf("batch(%s:%s)", o.DS, ents(o.Ents)))
+			}
 		case "txn":
 			var ps []string
 			var names []string
